@@ -245,6 +245,11 @@ mutual
   termination_by structural xs
 end
 
+/-- Sorting twice is sorting once. -/
+theorem canon_idem (ok : EnvOk env) (num : Bool) (x : Val) (hx : wellFormed env num x = true) :
+    canon env (canon env x) = canon env x :=
+  canon_id num _ (wf_canon ok num x hx)
+
 /-! ### (b) `eq` does not see the key order -/
 
 /-- The per-item test of the dict equality (`ne(v, right[k])`). -/
